@@ -256,6 +256,31 @@ structure GapOut where
 def GapOut.cons (i : Item) (c : List Int) (o : GapOut) : GapOut :=
   { o with items := i :: o.items, checks := c ++ o.checks }
 
+/-- the offset bookkeeping after a PTDP of `plen` bytes was decoded; returns the `check_offsets` argument, if called -/
+def bookkeep (st : GapSt) (plen : Int) : GapSt × List Int :=
+  if !st.isLlp && st.doCheck && decide (st.byteOffset ≥ 0) then
+    ({ st with doCheck := false, checkCount := st.checkCount + 1 }, [st.byteOffset])
+  else if !st.isLlp && !st.doCheck && decide (st.checkCount < 1) then
+    ({ st with doCheck := true, byteOffset := st.byteOffset + plen }, [])
+  else if !st.isLlp then ({ st with byteOffset := st.byteOffset + plen }, [])
+  else (st, [])
+
+/-- after a low-latency PTDP: look at the continuation byte `nextLlp`; `rest` = bytes after the PTDP -/
+def afterLlp (self : PTFR.State) (first : Bool) (rem : Option Bytes) (st1 : GapSt) (plen : Int)
+    (rest : Bytes) (nextLlp : Nat) : GapSt :=
+  if nextLlp == 0xFF then
+    { st1 with isLlp := true, buf := rest.drop 1, byteOffset := st1.byteOffset + plen + 1 }
+  else if (rem == some [] && decide (self.ptdp_offset > 0)) || first then
+    { st1 with isLlp := false, buf := self.payload.drop self.ptdp_offset, doCheck := false,
+               byteOffset := self.ptdp_offset, checkCount := 1 }
+  else match rem with
+    | none =>
+      { st1 with isLlp := false, buf := rest.drop 1, byteOffset := st1.byteOffset + plen + 1 }
+    | some r =>
+      { st1 with isLlp := false, buf := r ++ rest.drop 1,
+                 byteOffset := st1.byteOffset + plen + 1 - r.length,
+                 doCheck := if r.length > 0 then false else st1.doCheck }
+
 /-- `while aligned:` — one PTDP per iteration -/
 def gapLoop (self : PTFR.State) (first : Bool) (rem : Option Bytes) : Nat → GapSt → GapOut
   | 0, _ => { items := [], checks := [], raised := some .fuel }
@@ -269,33 +294,15 @@ def gapLoop (self : PTFR.State) (first : Bool) (rem : Option Bytes) : Nat → Ga
     | (_, .error e) => { items := [], checks := [], raised := some e }
     | (p0, .ok rest) =>
       let plen : Int := (PTDP.len p0 : Nat)
-      -- offset bookkeeping
-      let (st1, chk) : GapSt × List Int :=
-        if !st.isLlp && st.doCheck && decide (st.byteOffset ≥ 0) then
-          ({ st with doCheck := false, checkCount := st.checkCount + 1 }, [st.byteOffset])
-        else if !st.isLlp && !st.doCheck && decide (st.checkCount < 1) then
-          ({ st with doCheck := true, byteOffset := st.byteOffset + plen }, [])
-        else if !st.isLlp then ({ st with byteOffset := st.byteOffset + plen }, [])
-        else (st, [])
+      let (st1, chk) := bookkeep st plen
+      -- set the low latency flag on the current packet
       let p := { p0 with low_latency := st.isLlp }
       if st.isLlp then
+        -- struct.unpack_from(">B", buf) raises struct.error on an empty buffer, before the yield
         match structUnpackFrom PTFR_gap_fmt0 rest 0 with
         | .error e => { items := [], checks := chk, raised := some e }
         | .ok [nextLlp] =>
-          let st2 : GapSt :=
-            if nextLlp == 0xFF then
-              { st1 with isLlp := true, buf := rest.drop 1, byteOffset := st1.byteOffset + plen + 1 }
-            else if (rem == some [] && decide (self.ptdp_offset > 0)) || first then
-              { st1 with isLlp := false, buf := self.payload.drop self.ptdp_offset, doCheck := false,
-                         byteOffset := self.ptdp_offset, checkCount := 1 }
-            else match rem with
-              | none =>
-                { st1 with isLlp := false, buf := rest.drop 1, byteOffset := st1.byteOffset + plen + 1 }
-              | some r =>
-                { st1 with isLlp := false, buf := r ++ rest.drop 1,
-                           byteOffset := st1.byteOffset + plen + 1 - r.length,
-                           doCheck := if r.length > 0 then false else st1.doCheck }
-          (gapLoop self first rem fuel st2).cons (.pkt p) chk
+          (gapLoop self first rem fuel (afterLlp self first rem st1 plen rest nextLlp)).cons (.pkt p) chk
         | .ok _ => { items := [], checks := chk, raised := some .struct }
       else
         (gapLoop self first rem fuel { st1 with buf := rest }).cons (.pkt p) chk
